@@ -130,8 +130,19 @@ pub fn contract_run(name: &str, seed: u64, stats: &mut BTreeMap<String, u64>) ->
             if m.is_empty() {
                 continue;
             }
-            let off = rng.below(m.len());
-            let len = rng.range(1, m.len() - off);
+            // offsets and lengths biased towards block boundaries (4096 * k, powers of two, the ends)
+            let off = if rng.chance(1, 3) {
+                let mut c: Vec<usize> = vec![0, m.len() - 1];
+                let mut b = 4096;
+                while b < m.len() {
+                    c.extend([b - 1, b, b + 1].into_iter().filter(|x| *x < m.len()));
+                    b += 4096 * rng.range(1, 3);
+                }
+                *rng.pick(&c)
+            } else {
+                rng.below(m.len())
+            };
+            let len = if rng.chance(1, 4) { m.len() - off } else { rng.range(1, m.len() - off) };
             bump(stats, "contract.read_range");
             let r = guard(|| a.read_object(&key_, off, len)).map_err(|c| cv("contract-abort", format!("read_object({}, {}, {}) does not return: {}", key_, off, len, c.text())))?;
             match r {
